@@ -23,13 +23,14 @@ func init() {
 
 func runC09(p *Program, r *Report) {
 	narrowProg = p
-	r.Explanation = "Structural necessary conditions decided for every input: (P1) from each public entry that parses untrusted bytes, every prism function reached WITHOUT passing a frame whose deferred recover() is armed before anything can panic contains only operations that cannot panic, whose bounds are implied on every path by the path conditions (rule B: the function is abstractly interpreted with bounds tracking and 0 <= lo <= hi <= len / 0 <= i < len is proved in integer linear arithmetic from at most two conditions, admitting only conditions whose own SSA arithmetic cannot wrap), or that match a recognised sound guard idiom — constant index into an array, constant bounds under a dominating len(s) >= k, index by a counter bounded by len of the same slice, the s[2j], s[2j+1] pair with j < len(s)/2, and a slice expression data[a:a+c] dominated by `uint64(a)+uint64(c) > uint64(len(data)) → return` with the widening BEFORE the addition (a 32-bit sum that wraps defeats the check); (A1) on every explored path of the parsers the length of every make() is a constant, or is built from at most 16 input bits, or is bounded by a preceding path condition against the length of data actually held, and any subtraction in it is preceded by a condition that excludes wrap-around; every make site of meta/... is reached by the exploration; no Grow/ReadAll with an input-declared size; (A2) no allocation sized by input-declared numbers sits inside a loop whose trip count is input-declared unless its size is bounded by the bytes that iteration consumes (total memory linear in the input); (L1) every loop either has a constant or len()-bounded trip count, consumes a slice of held data from the front, or performs, on every cycle, a stream read whose failure leaves the loop (time linear in the input); (L2) no reader is ever repositioned (Unread/Reset/Discard; Seek only forward: io.SeekCurrent with an offset converted from an unsigned value). NOT decided: actual allocation totals and wall time, zlib's expansion ratio (≤ 1032:1 by format), stack depth."
+	r.Explanation = "Structural necessary conditions decided for every input: (P1) from each public entry that parses untrusted bytes, every prism function reached WITHOUT passing a frame whose deferred recover() is armed before anything can panic contains only operations that cannot panic, whose bounds are implied on every path by the path conditions (rule B: the function is abstractly interpreted with bounds tracking and 0 <= lo <= hi <= len / 0 <= i < len is proved in integer linear arithmetic from at most two conditions, admitting only conditions whose own SSA arithmetic cannot wrap), or that match a recognised sound guard idiom — constant index into an array, constant bounds under a dominating len(s) >= k, index by a counter bounded by len of the same slice, the s[2j], s[2j+1] pair with j < len(s)/2, and a slice expression data[a:a+c] dominated by `uint64(a)+uint64(c) > uint64(len(data)) → return` with the widening BEFORE the addition (a 32-bit sum that wraps defeats the check); (A1) on every explored path of the parsers the length of every make() is a constant, or is built from at most 16 input bits, or is bounded by a preceding path condition against the length of data actually held, and any subtraction in it is preceded by a condition that excludes wrap-around; every make site of meta/... is reached by the exploration; no Grow/ReadAll with an input-declared size; (A2) no allocation sized by input-declared numbers sits inside a loop whose trip count is input-declared unless its size is bounded by the bytes that iteration consumes (total memory linear in the input); (L1) every loop either has a constant or len()-bounded trip count, consumes a slice of held data from the front, or performs, on every cycle, a stream read whose failure leaves the loop (time linear in the input); (L2) no reader is ever repositioned (Unread/Reset/Discard; Seek only forward: io.SeekCurrent with an offset converted from an unsigned value). NOT decided: actual allocation totals and wall time, zlib's expansion ratio (≤ 1032:1 by format). (L3) no function of the parsing packages can reach itself through statically resolved calls, closures it creates, or deferred/go calls: the stack depth is a constant of the code, not a number the input controls (a goroutine stack overflow is fatal and recover() does not stop it)."
 	r.RuleText = "one instance per entry point (P1), per risky instruction (P1), per make site and path (A1), per loop (L1/A2), plus scans with expected count zero"
 	r.Trusted = []string{"go/packages+go/types+go/ssa (x/tools v0.29.0)", "the abstract interpreter (bounded exploration) for A1", "recover() in a deferred closure stops a panic raised in the same goroutine below that frame", "bytes.Buffer grows with the bytes written; io.CopyN copies at most n bytes actually present"}
 	checkPanicContainment(p, r)
 	checkAllocBounds(p, r)
 	checkLoopAllocs(p, r)
 	checkLoopProgress(p, r)
+	checkNoRecursion(p, r)
 	r.Floor("C09.P1", 7)
 	r.Floor("C09.A1", 3)
 	r.Floor("C09.L1", 12)
@@ -978,8 +979,8 @@ func checkAllocBounds(p *Program, r *Report) {
 					cf := staticCallee(in)
 					if cf != nil && cf.Name() == "Grow" && cf.Signature.Recv() != nil {
 						n++
-						if _, isC := constInt(in.Call.Args[len(in.Call.Args)-1]); !isC {
-							bad = "Grow with a non-constant size at " + p.InstrPos(in)
+						if _, isC := constInt(in.Call.Args[len(in.Call.Args)-1]); !isC && !heldLenExpr(in.Call.Args[len(in.Call.Args)-1], nil) {
+							bad = "Grow with a size that is neither constant nor the length of data already held at " + p.InstrPos(in)
 						}
 					}
 				case *ssa.MakeMap:
@@ -1644,3 +1645,171 @@ func checkLoopProgress(p *Program, r *Report) {
 }
 
 var _ = strings.Contains
+
+// ---------------------------------------------------------------------------
+// L3: no recursion among the functions of the parsing packages. The call
+// graph is the one the code spells out: static callees, the closures a
+// function creates (they run on its behalf), deferred and go calls. Interface
+// calls in these packages go to the stream (io.Reader/ByteReader), never back
+// into the module. A cycle means a stack depth that follows the input (one
+// frame per fill byte, per nested tag, …); exhausting the goroutine stack is
+// a fatal error that no recover() stops.
+func checkNoRecursion(p *Program, r *Report) {
+	rule := "C09.L3"
+	callees := map[*ssa.Function][]*ssa.Function{}
+	var fns []*ssa.Function
+	for _, f := range p.SrcFuncs() {
+		if !inMeta(f) || len(f.Blocks) == 0 {
+			continue
+		}
+		fns = append(fns, f)
+		seen := map[*ssa.Function]bool{}
+		add := func(g *ssa.Function) {
+			if g != nil && !seen[g] && isPrismFn(g) {
+				seen[g] = true
+				callees[f] = append(callees[f], g)
+			}
+		}
+		for _, b := range f.Blocks {
+			for _, in := range b.Instrs {
+				if c, ok := in.(ssa.CallInstruction); ok {
+					add(staticCallee(c))
+				}
+				if mc, ok := in.(*ssa.MakeClosure); ok {
+					if g, ok := mc.Fn.(*ssa.Function); ok {
+						add(g)
+					}
+				}
+				// a function value passed along or stored may be called later on this stack
+				for _, op := range in.Operands(nil) {
+					if op == nil || *op == nil {
+						continue
+					}
+					if g, ok := (*op).(*ssa.Function); ok {
+						add(g)
+					}
+				}
+			}
+		}
+	}
+	sort.Slice(fns, func(i, j int) bool { return shortFn(fns[i]) < shortFn(fns[j]) })
+	// which functions reach themselves?
+	n := 0
+	for _, f := range fns {
+		n++
+		r.SawFn(shortFn(f))
+		var path []string
+		seen := map[*ssa.Function]bool{}
+		var dfs func(g *ssa.Function, trail []string) bool
+		dfs = func(g *ssa.Function, trail []string) bool {
+			for _, h := range callees[g] {
+				if h == f {
+					path = append(trail, shortFn(h))
+					return true
+				}
+				if seen[h] {
+					continue
+				}
+				seen[h] = true
+				if dfs(h, append(trail, shortFn(h))) {
+					return true
+				}
+			}
+			return false
+		}
+		if dfs(f, []string{shortFn(f)}) {
+			if len(path) == 2 {
+				if n, ok := descendsFixedList(p, f); ok {
+					r.Hold(rule, shortFn(f), p.FnPos(f), fmt.Sprintf("calls itself only on the tail of a list that every outside caller takes from an array of %d elements: depth <= %d, a constant of the code", n, n+1))
+					continue
+				}
+			}
+			r.Violate(rule, shortFn(f), p.FnPos(f), "the function can call itself ("+strings.Join(path, " → ")+"): the stack grows with a quantity the input controls, and a stack overflow is fatal even under recover()")
+		}
+	}
+	r.Check(n > 0, rule, "parsing packages are recursion-free", "-", fmt.Sprintf("%d functions of meta/... examined, none on a call cycle", n), "no function examined")
+}
+
+// descendsFixedList: f calls itself (directly, nowhere else on a cycle) only with
+// parameter i replaced by param_i[k:] (constant k >= 1), and every call of f from
+// outside passes, in that position, the whole of an array whose length is part of
+// its type (a package-level table or a composite literal). The recursion depth is
+// then bounded by that length.
+func descendsFixedList(p *Program, f *ssa.Function) (int64, bool) {
+	pos := -1
+	for _, b := range f.Blocks {
+		for _, in := range b.Instrs {
+			c, ok := in.(ssa.CallInstruction)
+			if !ok || staticCallee(c) != f {
+				continue
+			}
+			if _, isCall := in.(*ssa.Call); !isCall {
+				return 0, false // go/defer of itself
+			}
+			found := -1
+			for i, a := range c.Common().Args {
+				sl, ok := a.(*ssa.Slice)
+				if !ok || i >= len(f.Params) || sl.X != ssa.Value(f.Params[i]) || sl.High != nil || sl.Max != nil {
+					continue
+				}
+				if k, ok := constInt(sl.Low); ok && k >= 1 {
+					found = i
+				}
+			}
+			if found < 0 || (pos >= 0 && pos != found) {
+				return 0, false
+			}
+			pos = found
+		}
+	}
+	if pos < 0 {
+		return 0, false
+	}
+	var bound int64 = -1
+	callers := 0
+	for _, g := range p.SrcFuncs() {
+		if g == f {
+			continue
+		}
+		for _, b := range g.Blocks {
+			for _, in := range b.Instrs {
+				// f used as a value anywhere else: unknown callers
+				for _, op := range in.Operands(nil) {
+					if op != nil && *op == ssa.Value(f) {
+						if c, ok := in.(ssa.CallInstruction); !ok || c.Common().Value != ssa.Value(f) {
+							return 0, false
+						}
+					}
+				}
+				c, ok := in.(ssa.CallInstruction)
+				if !ok || staticCallee(c) != f {
+					continue
+				}
+				callers++
+				args := c.Common().Args
+				if pos >= len(args) {
+					return 0, false
+				}
+				sl, ok := args[pos].(*ssa.Slice)
+				if !ok || sl.Low != nil || sl.High != nil {
+					return 0, false
+				}
+				pt, ok := sl.X.Type().Underlying().(*types.Pointer)
+				if !ok {
+					return 0, false
+				}
+				at, ok := pt.Elem().Underlying().(*types.Array)
+				if !ok {
+					return 0, false
+				}
+				if at.Len() > bound {
+					bound = at.Len()
+				}
+			}
+		}
+	}
+	if callers == 0 || bound < 0 || bound > 64 {
+		return 0, false
+	}
+	return bound, true
+}
